@@ -239,6 +239,10 @@ def replay_builder(rec):
         "    z = UnknownOperationResolver(target, add_head=add)(y)\n" \
         "    if z != y or z.__str__(head_tail=True) != y.__str__(head_tail=True):\n        problems.append('%s: resolving again changed the tree' % tn)\n" \
         "plain = T.Group(T.UnknownOperation(T.Word('a'), T.UnknownOperation(T.Word('b'), T.Word('c'))))\n" \
+        "for hb in (T.BoolOperation(T.Plus(T.Word('a')), T.UnknownOperation(T.Word('b'), T.Word('c'))), T.UnknownOperation(T.BoolOperation(T.Word('a'), T.Word('d')), T.UnknownOperation(T.Word('b'), T.Word('c'))), T.OrOperation(T.Word('a'), T.UnknownOperation(T.Word('b'), T.Word('c')))):\n" \
+        "    r = UnknownOperationResolver(None)(hb)\n" \
+        "    changed = [type(b).__name__ for a, b in zip(nodes(hb), nodes(r)) if type(a).__name__ == 'UnknownOperation']\n" \
+        "    if any(c not in ('AndOperation', 'OrOperation') for c in changed):\n        problems.append('lucene mode: %r resolved to %r (an implicit operation must become AND or OR)' % (hb, r))\n" \
         "if any(type(n).__name__ == 'OrOperation' for n in nodes(UnknownOperationResolver(None)(plain))):\n    problems.append('lucene mode: OR chosen although the query has no explicit operator')\n" \
         "violated = bool(problems)\nobservation = '; '.join(problems[:3]) or 'resolved as specified'\n"
     return [{"kind": "script", "code": code}]
